@@ -161,8 +161,10 @@ def replay(beh, tier="quick", seed=0, opts=None):
     has_reset = any(s["a"] == "reset" for s in hist)
     init = "const" if (has_reset or opts.get("init") == "const" or (hist and h % 2)) else "random"
     res["init"] = init
+    freeze = (1 + h % 3) if opts.get("freeze") and h % 2 else 0
+    res["freeze"] = freeze
     try:
-        built = Built(beh, rho, init=init)
+        built = Built(beh, rho, init=init, freeze=freeze)
         pool = built.apply_ops()
     except Exception as e:  # pylint: disable=broad-except
         res["failures"].append({"kind": "build_raise", "detail": repr(e),
@@ -210,8 +212,12 @@ def replay(beh, tier="quick", seed=0, opts=None):
     # read the tensors of its operands as compiled in ITS compiler
     sessions = [Session(built, pool, flags, res, ops, nb=nb, no_grad=bool(hist) and (h + k) % 2 == 0)
                 for k, flags in enumerate(flag_list)]
-    for ses in sessions:
+    for k, ses in enumerate(sessions):
         ses.compile_rest()
+        ses.eval_mode = bool(hist) and (h // 2 + k) % 2 == 0
+        if ses.eval_mode:
+            for cc in ses.compiled.values():
+                cc.eval()
     for ses in sessions:
         flags = ses.flags
         sem = flags[0]
@@ -306,6 +312,14 @@ def run_history(ses, beh, built, rows, floating, h, targets):
                     if i in old and old[i] is cc:
                         ses.fail("reload_same_object", pool=i, op=ses.ops[i], step=n,
                                  detail="a fresh compiler returned the old compiled circuit")
+                    if getattr(ses, "eval_mode", False):
+                        # a fresh instance used for inference before the parameters are loaded
+                        cc.eval()
+                        try:
+                            with torch.no_grad():
+                                cc(built.batch([rows[0]], floating=floating))
+                        except Exception:  # pylint: disable=broad-except
+                            pass
                     cc.load_state_dict(saved[i])
             elif a == "eval":
                 for i in ses.compiled:
@@ -340,6 +354,9 @@ def check_addressable(ses, built):
         if tuple(ten[idx].shape) != tuple(leaf.shape):
             ses.fail("registry_slice", detail=f"leaf {i}: slice shape {tuple(ten[idx].shape)} "
                                               f"!= symbolic shape {tuple(leaf.shape)}")
+        if bool(ten.requires_grad) != bool(leaf.learnable):
+            ses.fail("requires_grad", detail=f"leaf {i}: learnable={leaf.learnable} but the compiled "
+                                             f"tensor has requires_grad={bool(ten.requires_grad)}")
         key = (ten.data_ptr(), idx)
         if key in seen:
             ses.fail("registry_alias", detail=f"leaves {seen[key]} and {i} map to the same slice")
@@ -371,8 +388,13 @@ def check_grads(ses, beh, built, rows, floating, targets):
             continue
         t, idx = st.retrieve_compiled_parameter(leaf.tensor)
         ten = t()
+        if not leaf.learnable:
+            if ten.requires_grad:
+                ses.fail("requires_grad", detail=f"frozen leaf {li}: the compiled tensor requires grad")
+            continue
         if not ten.requires_grad:
-            ses.fail("grad_not_required", detail=f"leaf {li} compiled tensor does not require grad")
+            ses.fail("requires_grad", detail=f"leaf {li} is learnable but its compiled tensor does not "
+                                             f"require grad")
             continue
         pos = (u - 1,) if len(leaf.shape) == 1 else (u - 1, j - 1)
         w = leaf.linear(1)[pos].real
